@@ -80,6 +80,8 @@ def all_units():
         units_dec.register(add)
         import units_div
         units_div.register(add)
+        import units_sqr
+        units_sqr.register(add)
         # development aid: additional unit modules (comma separated) can be tried out before they are registered here
         import os, importlib
         for m in filter(None, os.environ.get('VERIF_EXTRA_UNITS', '').split(',')):
